@@ -203,7 +203,8 @@ outer:
 
 			callFrame := self.callFrame()
 			fn, found := (*self.Program)[callFrame.Function]
-			if !found || len(fn) == 0 {
+			// An empty routine (e.g. the `@init` of a module without globals) exists and simply ends at once
+			if !found {
 				panic(fmt.Sprintf("Cannot execute instructions of non-existent routine: %s", callFrame.Function))
 			}
 
